@@ -48,7 +48,84 @@ def valid_patterns(n: int, edges: List[Tuple[int, int]], segmenting: bool) -> Se
     return out
 
 
+def grid_edges_lib(h: int, w: int) -> List[Tuple[int, int]]:
+    out = []
+    for y in range(h):
+        for x in range(w):
+            if x < w - 1:
+                out.append((y * w + x, y * w + x + 1))
+            if y < h - 1:
+                out.append((y * w + x, (y + 1) * w + x))
+    return out
+
+
+def longest_border_chain(h: int, w: int) -> Tuple[int, List[Tuple[int, int]]]:
+    """longest diagonal chain of cells that starts at a border cell, touches the border nowhere else, never revisits or
+    runs next to itself, and leaves the inactive cells connected: such a pattern is admissible, and the schema forces
+    strictly increasing ranks along it, so the rank domain needs at least that many values"""
+    best: List[Tuple[int, int]] = []
+    edges = grid_edges(h, w)
+
+    def border(c: Tuple[int, int]) -> bool:
+        return c[0] in (0, h - 1) or c[1] in (0, w - 1)
+
+    def admissible(chain: List[Tuple[int, int]]) -> bool:
+        pat = [False] * (h * w)
+        for y, x in chain:
+            pat[y * w + x] = True
+        return tuple(pat) in valid_single(h, w, tuple(pat), edges)
+
+    def rec(chain: List[Tuple[int, int]]) -> None:
+        nonlocal best
+        if len(chain) > len(best) and admissible(chain):
+            best = list(chain)
+        if len(chain) >= 7:
+            return
+        y, x = chain[-1]
+        for dy in (-1, 1):
+            for dx in (-1, 1):
+                c = (y + dy, x + dx)
+                if not (0 <= c[0] < h and 0 <= c[1] < w) or c in chain or border(c):
+                    continue
+                # no other diagonal contact with the chain (keeps it a path in the diagonal graph)
+                if sum(1 for d in chain if abs(d[0] - c[0]) == 1 and abs(d[1] - c[1]) == 1) != 1:
+                    continue
+                rec(chain + [c])
+
+    for y in range(h):
+        for x in range(w):
+            if border((y, x)):
+                rec([(y, x)])
+    return len(best), best
+
+
+def valid_single(h: int, w: int, pat: Tuple[bool, ...], edges: List[Tuple[int, int]]) -> Set[Tuple[bool, ...]]:
+    n = h * w
+    if any(pat[a] and pat[b] for a, b in edges):
+        return set()
+    adj = adjacency(n, edges)
+    off = [i for i in range(n) if not pat[i]]
+    if off:
+        seen = {off[0]}
+        st = [off[0]]
+        while st:
+            v = st.pop()
+            for u in adj[v]:
+                if not pat[u] and u not in seen:
+                    seen.add(u)
+                    st.append(u)
+        if len(seen) != len(off):
+            return set()
+    return {pat}
+
+
 def ref_diagonal(h: int, w: int):
+    if h <= 1 or w <= 1:
+        cn0 = Canon({})
+        edges = grid_edges_lib(h, w)
+        refs, cons_c = ref_vertices_connected(h * w, edges, False, act=lambda i: cn0.neg(("A", i)))
+        cons_a = not_adjacent_ref(grid_edges(h, w))
+        return refs, (lambda: cons_a() + cons_c())
     cn = Canon({})
     A = lambda y, x: ("A", y * w + x)  # noqa: E731
     R = lambda y, x: ("rank", y * w + x)  # noqa: E731
@@ -134,6 +211,7 @@ def run(repo: Repo, rep: Report) -> None:
     except (Raised, IndexOutOfRange) as ex:
         rep.finding("ENC-S", GRAPH, "active_vertices_not_adjacent_and_not_segmenting", "raises", f"raises {ex}")
     # ---- grid route ------------------------------------------------------------------------------------
+    xitems: List[Any] = []
     try:
         deviating = []
         n_ok = 0
@@ -144,18 +222,52 @@ def run(repo: Repo, rep: Report) -> None:
             inst.w.call("active_vertices_not_adjacent_and_not_segmenting", inst.s, arr)
             refs, cons = ref_diagonal(h, w)
             same, diff = compare(inst, refs, cons)
+            if h * w <= 6:
+                xitems.append((f"{h}x{w} grid", inst, [a for a in inst.arrays if a["user"]][0]["ids"],
+                               (lambda h=h, w=w: valid_patterns(h * w, grid_edges(h, w), True))))
             if same:
                 n_ok += 1
             else:
                 deviating.append((f"{h}x{w} grid", h * w, grid_edges(h, w), inst, diff))
         if not deviating:
             rep.ok("ENC-S", f"not_adjacent_and_not_segmenting (grid form): reference diagonal-rank schema on {n_ok} shapes", points=n_ok)
+            from .encodings import cross_check
+
+            cross_check(rep, "active_vertices_not_adjacent_and_not_segmenting(grid form)", "active_vertices_not_adjacent_and_not_segmenting", xitems)
         else:
             _triage(rep, "active_vertices_not_adjacent_and_not_segmenting(grid form)", deviating)
     except Undecided as ex:
         rep.undecide("ENC-S", f"grid route: {ex}")
     except (Raised, IndexOutOfRange) as ex:
         rep.finding("ENC-S", GRAPH, "active_vertices_not_adjacent_and_not_segmenting", "raises", f"raises {ex}")
+    # ---- rank-domain sufficiency on larger boards ------------------------------------------------------
+    rep.rule("ENC-D", "grid form: the rank domain has at least as many values as the longest admissible border-anchored diagonal chain needs (strictly increasing ranks along it)")
+    try:
+        bad = None
+        k = 0
+        for h, w in ((3, 3), (3, 4), (4, 4), (4, 5), (5, 4), (5, 5)):
+            k += 1
+            inst = Instance(repo)
+            arr = inst.s.attrs["bool_array"]((h, w))
+            inst.arrays[-1]["user"] = "A"
+            inst.w.call("active_vertices_not_adjacent_and_not_segmenting", inst.s, arr)
+            ints = [a for a in inst.aux_arrays() if a["kind"] == "i"]
+            if len(ints) != 1:
+                continue
+            size = ints[0]["hi"] - ints[0]["lo"] + 1
+            need, chain = longest_border_chain(h, w)
+            if size < need:
+                bad = (f"{h}x{w} board: the rank variables range over {size} values, but the admissible pattern with active cells {chain} "
+                       f"(a diagonal chain hanging from the border) forces {need} strictly increasing ranks: that pattern is rejected")
+                break
+        if bad:
+            rep.finding("ENC-D", GRAPH, "active_vertices_not_adjacent_and_not_segmenting", "rank domain (grid form)", bad)
+        else:
+            rep.ok("ENC-D", f"rank domain covers the longest border-anchored diagonal chain on {k} boards up to 5x5", points=k)
+    except Undecided as ex:
+        rep.undecide("ENC-D", str(ex))
+    except (Raised, IndexOutOfRange) as ex:
+        rep.finding("ENC-D", GRAPH, "active_vertices_not_adjacent_and_not_segmenting", "raises", f"raises {ex}")
     check_grid(repo, rep)
     rep.assume("the diagonal-rank schema (rank range (h*w-1)//2+1, border cells forced roots, at most one lower diagonal neighbour, distinct "
                "diagonal ranks) is exact for 'no two adjacent and complement connected' on grids: argument in DESIGN.md C08")
